@@ -41,7 +41,7 @@ BIN = os.path.join(vlib.BUILD, "bp_arena")
 DRV = os.path.join(vlib.LEAN, ".lake", "build", "bin", "drv_bparena")
 REQUIRED = ["reg_no", "reg_first", "reg_inplace", "reg_new", "unreg", "libinit", "libexit", "libexit_unmap",
             "prune_by_registered", "prune_by_unregistered", "fork", "use", "reuse_in_older_chunk",
-            "recheck_saw_handler_registration", "sig@mask", "sig@cs", "sig@idle", "sig@xmask", "sig@xinitLock",
+            "recheck_saw_handler_registration", "sig@mask", "sig@cs", "sig@idle", "sig@xmask",
             "S_thread_exit", "S_read_lock"]
 
 
@@ -152,8 +152,8 @@ def run_part(chk):
                    "non-trivial = run with an expansion, a reuse of a slot in an older chunk and a handler registration seen by the "
                    "re-check; distinct = different driver coverage summary")
     missing = [k for k in REQUIRED if not hist.get(k)]
-    if maxes["max_live"] <= 64 or maxes["max_chunks"] < 3:
-        missing.append("population beyond 64 / three chunks")
+    if maxes["max_live"] <= 128 or maxes["max_chunks"] < 3 or maxes["max_cap"] < 128:
+        missing.append("population beyond 128 / three chunks / capacity 128")
     cov["coverage_complete"] = (not missing) and bad is None
     if missing and bad is None:
         chk.notes.append("bp_arena: generator did not reach: " + ", ".join(missing))
